@@ -109,7 +109,10 @@ func c13Strings(c *Ctx) []string {
 		"2020-01-01T10:30:00+0530", "2020-01-01T10:30:00+05", "2020-01-01T10:30:00.000Z", "2020-01-01T10:30:00.000+05:30", "2020-01-01T10:30:00.5Z", "2020-01-01T10:30:00.123456+05:30", "2020-01-01T10:30Z", "2020-01-01T10:30+05:30", "2020-01-01T10Z", "2020-01-01T10+05:30",
 		"2020-01-01T10:30:00 Z", "2020-01-01 10:30:00", "2020-01-01t10:30:00", "2020-02-30T10:30:00Z", "2020-01-01T10:30:00Zx",
 		"24:00", "23:59", "23:59:59", "23:59:59.999", "23:59:59.9999", "23:59:60", "00:00:00.000", "5:04", "10", "1", "10:5", "T10:00", "@T10:00", "@T10", "TT10", "@10:30", "T@T10:30:00.000", "@@T10", "T10:30:00", "@T@T10", "@2020-01-01T10:30:00Z", "@@2020", "T2020", "@T2020-01-01", "10:00:00,5", "10:00:00.+12", "10:00Z", "10:00:00+01:00",
-		"5 'mg'", "5 mg", "5mg", "5'mg'", "5  'mg'", "5\t'mg'", "5 \n'mg'", "5 mg/dL", "5 'mg/dL'", "+5.0 'a b'", "5 ''", "5 'mg' x", "1.5e3 'mg'", " 5 'mg'", "5 'mg' ", "5 days", "5 day", "5.5 years", "5.'mg'", "5. 'mg'", "-5.25 '1'", "5 '", "5 'a'b'", "5 'é'", "5 é", "100           km", "5 kg m", "5 '  '", "٥ 'mg'",
+		"5 'mg'", "5 mg", "5mg", "5'mg'", "5  'mg'", "5\t'mg'", "5 \n'mg'",
+		// white space that starts with a tab / newline / form feed / carriage return and goes on with a blank; no white space
+		// before a quoted unit that contains a blank
+		"5\t 'mg'", "5\n days", "-1.5\r 'kg'", "5\f 'mg'", "5\t\t 'mg'", "5\t mg", "5'a b'", "0.5'mm Hg'", "5' '", "5\n 'a b'", "5 mg/dL", "5 'mg/dL'", "+5.0 'a b'", "5 ''", "5 'mg' x", "1.5e3 'mg'", " 5 'mg'", "5 'mg' ", "5 days", "5 day", "5.5 years", "5.'mg'", "5. 'mg'", "-5.25 '1'", "5 '", "5 'a'b'", "5 'é'", "5 é", "100           km", "5 kg m", "5 '  '", "٥ 'mg'",
 	}
 	// generated renderings: every layout x values x offsets x fraction digits
 	offs := []string{"", "Z", "+05:30", "-11:00", "+00:00", "-03:30", "+14:00"}
